@@ -43,7 +43,7 @@ def floors(tier):
     f = {f"pair={a}>{b}": 15 for a in PROTOS for b in PROTOS}
     f.update({"rejected>accepted": 100, "rtcm-empty>frame": 10, "ubx-len>=256": 15, "rtcm-len>=256": 10,
               "noise": 100, "nontrivial": 300, "source=buffered": 300, "source=file": 100, "source=pipe": 100,
-              "usage=iterate-again-after-more-data": 200, "usage=second-reader-continues": 200})
+              "source=socket": 150, "usage=iterate-again-after-more-data": 150, "usage=second-reader-continues": 150})
     return f
 
 
@@ -57,7 +57,7 @@ OPTS = st.fixed_dictionaries({
     "parsebitfield": st.sampled_from([1, 0]),
     "quitonerror": st.sampled_from([0, 1]),
     "labelmsm": st.sampled_from([1, 1, 2]),
-    "source": st.sampled_from(S.SOURCES + ["rawpipe", "fileio"]),
+    "source": st.sampled_from(S.SOURCES + ["rawpipe", "fileio", "socket:plain", "socket:datagram", "socket:tls-like"]),
     "usage": st.sampled_from(["once", "once", "once", "regrow", "handover"]),
 })
 
@@ -75,6 +75,9 @@ def check(case) -> core.Out:
     items, opts = case["items"], dict(case["opts"])
     source = opts.pop("source", "bytesio")
     usage = opts.pop("usage", "once")
+    if source.startswith("socket:"):
+        usage = "once"
+        opts["bufsize"] = 64
     S.close_sources()
     data = streams.stream_bytes(items)
     frames = [i for i in items if i["p"] != "noise"]
@@ -182,6 +185,10 @@ def check(case) -> core.Out:
     if len(got) > len(expected):
         out.viol.append((key + f"extra|{S.PNAME[S.proto_of(got[n][0])]}",
                          f"unexpected item {got[n][0][:30].hex()} ({S.opts_label(opts)})"))
+        return out
+    if source.startswith("socket:") and usage == "once":
+        if stream._pos < len(data):
+            out.viol.append((key + "not-consumed", f"{len(data) - stream._pos} bytes not received from the socket when iteration ended"))
         return out
     try:
         rest = stream.read()
